@@ -10,6 +10,7 @@ Inductive op :=
 | OGrowMissing
 | ODelete (id : Z)
 | OCheckBad
+| OCheckBadKeep                        (* check_bad(delete_bad=False): report only *)
 | OReload
 | OQuery
 | OSetFail (codes : list Z)            (* from now on the function raises on these settings *)
@@ -87,6 +88,9 @@ Definition step (s : st) (o : op) : st * val :=
   | OCheckBad =>
       let '(bad, d') := check_bad d in
       ok (mk_st ob d' (s_fail s) (s_kind s)) [vlist VZ (sort_dedup bad)]
+  | OCheckBadKeep =>
+      let '(bad, _) := check_bad d in
+      ok (mk_st ob d (s_fail s) (s_kind s)) [vlist VZ (sort_dedup bad)]
   | OReload => ok (mk_st (reload d) d (s_fail s) (s_kind s)) []
   | OQuery => ok (mk_st (sync ob d) d (s_fail s) (s_kind s)) []
   | OSetFail codes => ok (mk_st ob d codes (s_kind s)) []
